@@ -281,9 +281,12 @@ func runEvCase(c evCase) *evRun {
 				commitFailed = true
 			}
 		}
-		_ = runErr
+		// an atomic bulk whose BeginTX fails (on an initializing ledger the facade's BeginTX runs the prelude of handleState --
+		// ledger lock, state flip, sequence resync -- inside the transaction it has just begun): Run returns the error and no
+		// element is processed.  In the model that is a bulk whose first element fails before its own sub-transaction.
+		beginFailed := s.Bulk && s.Atomic && runErr != nil && len(results) == 0
 		// abstract description of the step
-		hit, stepFailed := false, false
+		hit, stepFailed := false, beginFailed
 		outs := make([]string, len(s.Ops))
 		for i := range s.Ops {
 			r := OpResult{Class: "cancelled"}
@@ -300,6 +303,11 @@ func runEvCase(c evCase) *evRun {
 			txDone := strings.Contains(r.Class, "transaction has already been committed or rolled back")
 			ctxCancelled := r.Class == "cancelled" || strings.Contains(r.Class, "context canceled")
 			switch {
+			case beginFailed && i == 0 && s.Fault.Kind == "cancel_stmt" && cancelHit:
+				outs[i] = L("cancel", "0")
+				cancelAssigned = true
+			case beginFailed && i == 0:
+				outs[i] = "early"
 			case exp == "ok" || exp == "fail":
 				outs[i] = exp
 				if (r.Class == "none") != (exp == "ok") && r.Class != "cancelled" {
